@@ -53,6 +53,8 @@ API:
   mutate_spec(rng, spec, kind=None) -> (new_spec, kind, note) | None   single-point mutation (deep copy);
                                     kinds in MUTATION_KINDS; NEUTRAL_KINDS do not change structure (hints, dict order)
   spec_text(spec)                -> short human readable rendering (for witnesses)
+  collect(root)                  -> (ops, blocks, regions, values) of REAL IR in walk order, read from the raw link fields
+  region_blocks(r), block_ops(b), is_inside(node, ancestor)   raw-field helpers for real IR
   TYPES, ATTRS                   key -> xDSL attribute pools (extend with register_type / register_attr)
 """
 from __future__ import annotations
@@ -952,6 +954,73 @@ def mutate_spec(rng: random.Random, spec, kind: str | None = None):
         o["props"].reverse()
         return s, kind, f"op {o['id']} attribute/property insertion order reversed"
     raise ValueError(kind)
+
+
+# --------------------------------------------------------------------------------------------- raw IR walkers
+def collect(root):
+    """Independent walker over the raw link fields of real IR (no xDSL iterator is used):
+    returns (ops, blocks, regions, values) of everything under `root` (Operation | Block | Region) in walk order;
+    `values` lists results of an op when the op is visited and block arguments when the block is visited, i.e. the
+    same positional order in two isomorphic trees."""
+    from xdsl.ir import Block, Operation
+    ops, blocks, regions, values = [], [], [], []
+
+    def v_op(op):
+        ops.append(op)
+        values.extend(op.results)
+        for r in op.regions:
+            v_region(r)
+
+    def v_block(b):
+        blocks.append(b)
+        values.extend(b._args)
+        o = b._first_op
+        while o is not None:
+            v_op(o)
+            o = o._next_op
+
+    def v_region(r):
+        regions.append(r)
+        b = r._first_block
+        while b is not None:
+            v_block(b)
+            b = b._next_block
+
+    if isinstance(root, Operation):
+        v_op(root)
+    elif isinstance(root, Block):
+        v_block(root)
+    else:
+        v_region(root)
+    return ops, blocks, regions, values
+
+
+def region_blocks(r):
+    out = []
+    b = r._first_block
+    while b is not None:
+        out.append(b)
+        b = b._next_block
+    return out
+
+
+def block_ops(b):
+    out = []
+    o = b._first_op
+    while o is not None:
+        out.append(o)
+        o = o._next_op
+    return out
+
+
+def is_inside(node, anc):
+    """True when `anc` is `node` or one of its ancestors (parent chain)."""
+    cur = node
+    while cur is not None:
+        if cur is anc:
+            return True
+        cur = cur.parent
+    return False
 
 
 # --------------------------------------------------------------------------------------------- rendering
